@@ -3,6 +3,7 @@
    Input: the token list (type, value) the tokenizer produced; namespaces as an association list.
    Line references are to /repo/src/css_parser/css/selector.py.                                   *)
 From CssV Require Import Base Gen.PyTables Tokenizer Gen.SelConsts.
+From CssV Require Upto.
 
 (* ------------------------------------------------------------------ token types *)
 Inductive tty :=
@@ -608,7 +609,7 @@ Definition ok_expr (e : expr) : bool :=
   match e with [] => false | _ => forallb (fun p => ok_et (fst p) && ok_ws (snd p)) e end.
 Definition ok_pseudo (p : pseudo) : bool :=
   match p with
-  | PsId _ n => ident n && ident (lower n)     (* the lower-cased name is still an identifier *)
+  | PsId _ n => ident n
   | PsFn _ n w e => ident n && negb (eqs (lower n) (s "not")) && ok_ws w && ok_expr e
   end.
 (* does the machine treat the pseudo as a pseudo-element (after which only a combinator may follow)? *)
@@ -787,3 +788,96 @@ Definition ok_page (p : pagesel) : bool :=
 Definition named (p : pagesel) : nat := match pg_name p with Some _ => 1 | None => 0 end.
 Definition first_page (p : pagesel) : nat := match pg_pseudo p with Some PFirst => 1 | _ => 0 end.
 Definition left_or_right (p : pagesel) : nat := match pg_pseudo p with Some PLeft | Some PRight => 1 | _ => 0 end.
+
+(* ================================================================== SelectorList._setSelectorText (selectorlist.py:160-221)
+   split at top-level commas with the shared model of _tokensupto2(listseponly=True), every member parsed by its own
+   Selector; one rejected member (or a trailing / leading comma, or no tokens) rejects the whole list.              *)
+Definition tty_name (t : tty) : str := match tty_str t with Some n => n | None => s "?" end.
+Definition to_tok (t : stok) : Tokenizer.tok := Tokenizer.mkTok (tty_name (sty t)) (sval t) (sval t) 0 0.
+Definition tok_pair (t : Tokenizer.tok) : str * str := (Tokenizer.ty t, Tokenizer.val t).
+
+Inductive slexp := SL_init | SL_comma | SL_none.       (* `expected`: True / ',' / None *)
+Definition member := (nat * nat * nat * list item)%type.
+Inductive slresult := SLRejected | SLAccepted (members : list member).
+
+Fixpoint sl_loop (fuel : nat) (ns : ns_map) (ts : list Tokenizer.tok) (acc : list member) (wf : bool) (e : slexp)
+  : option slresult :=
+  match fuel with
+  | O => None
+  | S f =>
+    match Upto.upto Upto.FListSep None ts with
+    | ([], _) =>                                                                      (* l.205 break, l.207-216 *)
+      Some (match e with SL_none => if wf then SLAccepted acc else SLRejected | _ => SLRejected end)
+    | ((x :: r) as run, rest) =>
+      let comma := eqs (Tokenizer.val (last r x)) (s ",") in                          (* l.193 *)
+      let seltoks := if comma then removelast run else run in
+      match select ns (map tok_pair seltoks) with                                     (* l.198 *)
+      | None => None
+      | Some (Accepted b c d q) => sl_loop f ns rest (acc ++ [(b, c, d, q)]) wf (if comma then SL_comma else SL_none)
+      | Some Rejected => sl_loop f ns rest acc false (if comma then SL_comma else SL_none)
+      end
+    end
+  end.
+Definition sl_run (ns : ns_map) (ts : list Tokenizer.tok) : option slresult :=
+  sl_loop (S (length ts)) ns ts [] true SL_init.
+Definition sl_select (ns : ns_map) (ts : list (str * str)) : option slresult :=
+  sl_run ns (map (fun tv => Tokenizer.mkTok (fst tv) (snd tv) (snd tv) 0 0) ts).
+
+(* a comma separated list of grammar selectors, as tokens *)
+Definition comma_tok : Tokenizer.tok := Tokenizer.mkTok (s "CHAR") (s ",") (s ",") 0 0.
+Definition sel_toks (x : selector) : list Tokenizer.tok := map to_tok (render x).
+Fixpoint join_commas (l : list (list Tokenizer.tok)) : list Tokenizer.tok :=
+  match l with
+  | [] => []
+  | [x] => x
+  | x :: r => x ++ comma_tok :: join_commas r
+  end.
+(* side condition of the list theorem: no token of the member's rendering ends the comma search (its brackets are
+   balanced and no non-IDENT layout/number token has the value "," or ""); checked per case by the harness *)
+Definition md_list : Upto.mode := Upto.mode_of Upto.FListSep None.
+Definition sep_free (x : selector) : bool :=
+  Upto.closed md_list (0, 0, 0)%Z (sel_toks x) && Upto.zero (Upto.after (0, 0, 0)%Z (sel_toks x)) &&
+  negb (eqs (Tokenizer.val (last (sel_toks x) comma_tok)) (s ",")).
+
+(* ================================================================== do_css_Selector (serialize.py:849-888)
+   the machine's seq back to text: every item goes through Out.append (the shared model OutModel.append over the
+   regenerated preferences / literals of Gen/Prefs.v) with space=False, strings additionally with keepS=True;
+   (uri, name) items are written with the prefix the namespace view gives.  The namespace view of a stand-alone
+   Selector is its used-namespaces copy; since every URI that occurs in an item is "used", lookups give the same
+   answers as on ns itself (ns is taken to have pairwise different prefixes, as a dict has).                      *)
+From CssV Require OutModel.
+From CssV Require Gen.Quote.
+From CssV Require Gen.Prefs.
+
+Fixpoint prefix_for (u : str) (ns : ns_map) : option str :=          (* prefixForNamespaceURI: first match *)
+  match ns with [] => None | (p, x) :: r => if eqs x u then Some p else prefix_for u r end.
+
+Definition pair_text (ns : ns_map) (u : nsuri) (name : str) : str :=
+  let default := assoc_s [] ns in
+  let same := match default, u with                                  (* DEFAULTURI == namespaceURI *)
+              | Some d, UStr x => eqs d x
+              | None, UNone => true
+              | _, _ => false
+              end in
+  let falsy_default := match default with None | Some [] => true | _ => false end in
+  if same || (falsy_default && match u with UNone => true | _ => false end) then name
+  else (match u with
+        | UAny => s "*"
+        | UStr x => match prefix_for x ns with Some p => p | None => [] end
+        | UNone => []                                                (* IndexError -> '' *)
+        end) ++ s "|" ++ name.
+
+Definition out_item (ns : ns_map) (i : item) : OutModel.item :=
+  let ty := Some (ityp_str (fst i)) in
+  match snd i with
+  | VPair u n => OutModel.mkItem (OutModel.VStr (pair_text ns u n)) ty false false false false []
+  | VComment v => OutModel.mkItem (OutModel.VObj true (Some v) None) ty false true false false []
+  | VStr v => OutModel.mkItem (OutModel.VStr v) ty false true false false (Gen.Quote.hstring v)
+  end.
+Definition ser_seq (ns : ns_map) (q : list item) : option str :=
+  OutModel.out_text Gen.Prefs.prefs_default 0 (map (out_item ns) q).
+Definition ser_result (ns : ns_map) (r : option result) : option str :=
+  match r with Some (Accepted _ _ _ q) => ser_seq ns q | _ => None end.
+Definition select_ser (ns : ns_map) (ts : list (str * str)) : option str := ser_result ns (select ns ts).
+Definition sel_run (ns : ns_map) (glued : list stok) : option result := run ns glued.
+Definition sel_prepass (ts : list stok) : list stok := prepass ts.
